@@ -9,6 +9,14 @@ that exactness itself (Fraction mirror of every float step) and falls back to a 
 where it does not hold (values below the 1e-5 clamp, very wide dynamic ranges).  The draws of
 `torch.rand` are recorded while `sample` runs and handed to the model as exact rationals.
 
+Source translation (`pre_gate`, before the Lean gate): `py2lean_segtree.py` translates the source text
+of `agilerl/components/segment_tree.py` of the tree under test into `lean/Gen/SegTreeGen.lean`;
+`Proofs/SegTreeGenEq.lean` proves every generated definition equal to the model function and
+`Props/C11.lean` restates the tree theorems over the generated definitions
+(`C11_source_translation_*`).  If the translator rejects the source or those proofs stop checking,
+that is a gate problem naming the broken equality; the correspondence / oracle below then supply the
+failing input if there is one (else the VIOLATION line ends with no-failing-input-found).
+
 Oracle (independent of Lean): a Python reference of the priorities (new -> running max, update ->
 the given priority; below the clamp only "positive, same in both trees" is required, the clamp
 constant itself is left to the model comparison), leaves == priority ** alpha, unstored leaves
